@@ -26,6 +26,7 @@ func checkC13(c *Ctx) {
 	r135(c, "R13.5 middleware-nesting-order")
 	// buffered bodies are delivered in order and within the limits (shared with C14)
 	r144(c, "R13.6 buffered-bodies-keep-order")
+	rStatusKept(c, "R13.7 buffered-status-kept")
 }
 
 type touch struct {
@@ -506,6 +507,19 @@ func r134(c *Ctx) {
 			}
 		}
 		c.ob(rule, "forwardHeaders/"+t.hdr+"-taken-from-same-inbound-header", t.in.Pos(), srcOK, true, "")
+		if t.hdr == "X-Forwarded-For" {
+			// the chain may span several header lines: it is handed on as the whole value list, and unconditionally (an
+			// absent header must also be absent outbound, so that SetXForwarded starts a fresh chain)
+			_, whole := t.in.(*ssa.MapUpdate)
+			extra := 0
+			for _, ce := range dominatingConds(t.in.Block()) {
+				if f, _, ok := fieldLoad(ce.cond); ok && f == fwdF {
+					continue
+				}
+				extra++
+			}
+			c.ob(rule, "forwardHeaders/X-Forwarded-For-handed-on-whole", t.in.Pos(), whole && srcOK && extra == 0, true, "every X-Forwarded-For line the client sent must reach the target (Header.Get / Set keep only the first), under no other condition than options.ForwardHeaders")
+		}
 	}
 	rew := c.method("Target", "rewrite")
 	okCall := false
